@@ -314,7 +314,48 @@ Definition op_keys (o : sop) : list (bytes * bytes) :=
   end.
 
 Definition op_domain (o : sop) : Prop :=
-  Forall K (op_keys o) /\ match o with OAdvance d => 0 <= d | OPutBatch _ | OGetBatch _ _ => False | _ => True end.
+  Forall K (op_keys o) /\ match o with OAdvance d => 0 <= d | _ => True end.
+
+
+(* ---- batches ---- *)
+
+Lemma CI_put_batch items : forall st now c, CI (mkC (st, now) c now) -> Forall K (map fst items) ->
+  CI (mkC (put_batch st items, now)
+          (fold_left (fun c it => c_set c (fst (fst it)) (snd (fst it)) (Some (0, snd it))) items c) now).
+Proof.
+  unfold put_batch. induction items as [|[[pk cc] v] items IH]; intros st now c HCI HK; cbn [fold_left fst snd map] in *; [exact HCI|].
+  inversion HK as [|? ? Hk Hr]; subst. apply IH; [|exact Hr]. apply (CI_write st now c pk cc v 0 HCI Hk).
+Qed.
+
+(* filling after a storage GetBatch: a key that is not cached has no live row, so the storage said "missing" *)
+Lemma CI_batch_fill st now pk ccs : forall c, CI (mkC (st, now) c now) -> Forall (fun cc => K (pk, cc)) ccs ->
+  CI (mkC (st, now)
+          (fold_left (fun c ccv => match snd ccv with
+                                   | Some v => fill_positive_batch c pk (fst ccv) v
+                                   | None => c_set_if_absent c pk (fst ccv) None
+                                   end) (combine ccs (get_batch now st pk ccs)) c) now).
+Proof.
+  induction ccs as [|cc ccs IH]; intros c HCI HK; cbn [get_batch map combine fold_left fst snd]; [exact HCI|].
+  inversion HK as [|? ? Hk Hr]; subst. apply IH; [|exact Hr].
+  pose proof (CI_entries _ HCI pk cc Hk) as He. cbn [c_under c_cache fst snd] in He.
+  unfold fill_positive_batch. rewrite flag_batch_fill_guarded.
+  destruct (c_get c pk cc) as [e|] eqn:Eg.
+  - (* already cached: nothing changes *)
+    destruct (get now st pk cc); unfold c_set_if_absent; rewrite Eg; exact HCI.
+  - cbn [entry_ok] in He. unfold get. rewrite He. cbn [option_map]. apply CI_negative; assumption.
+Qed.
+
+Lemma get_cached_agrees st now c pk cc : CI (mkC (st, now) c now) -> K (pk, cc) ->
+  forall e, c_get c pk cc = Some e ->
+  (match raw_lookup st pk cc with Some r => negb (rexp r =? 0) | None => false end) = false ->
+  (match e with Some (_, v) => Some v | None => None end) = get now st pk cc.
+Proof.
+  intros HCI Hk e Eg Hd. pose proof (CI_entries _ HCI pk cc Hk) as He. cbn [c_under c_cache fst snd] in He.
+  rewrite Eg in He. destruct e as [[ex v]|]; cbn [entry_ok] in He.
+  - rewrite He in Hd. cbn [rexp] in Hd. apply negb_false_iff, Z.eqb_eq in Hd. subst ex.
+    unfold get, lookup. rewrite He. reflexivity.
+  - unfold get. rewrite He. reflexivity.
+Qed.
 
 Theorem cache_step_transparent s o : CI s -> op_domain o ->
   let r := cache_step spec_step s o in
@@ -325,9 +366,11 @@ Proof.
   assert (Ecn : cnow = now) by (destruct HCI as [Hn _ _ _]; exact Hn). subst cnow.
   pose proof (CI_entries _ HCI) as He. cbn [c_under c_cache fst snd] in He.
   destruct o as [pk cc v|items|pk cc|pk ccs|pk a f|pk cc v ttl|pk cc old new ttl|pk cc e|pk cc|pk a f|pk cc|d];
-    cbn [op_keys] in HK; try contradiction.
+    cbn [op_keys] in HK.
   - (* Put *) inversion HK as [|? ? HK1 _]; subst. cbn. split; [|split; [reflexivity|right; reflexivity]].
     apply CI_write; assumption.
+  - (* PutBatch *) cbn [cache_step c_under c_cache c_now spec_step fst snd dont_care].
+    split; [|split; [reflexivity|right; reflexivity]]. apply CI_put_batch; assumption.
   - (* Get *) inversion HK as [|? ? HK1 _]; subst. specialize (He pk cc HK1).
     cbn [cache_step c_under c_cache c_now spec_step fst snd dont_care].
     destruct (c_get c pk cc) as [[[ex v]|]|] eqn:Eg; cbn [entry_ok] in He.
@@ -337,6 +380,24 @@ Proof.
     + cbn [fst snd]. split; [exact HCI|]. split; [reflexivity|right]. unfold get. rewrite He. reflexivity.
     + unfold get. rewrite He. cbn [option_map fst snd]. split; [|split; [reflexivity|right; reflexivity]].
       apply CI_negative; assumption.
+  - (* GetBatch *)
+    assert (HKc : Forall (fun cc => K (pk, cc)) ccs).
+    { rewrite Forall_forall in *. intros cc Hin. apply HK. apply in_map_iff. exists cc. auto. }
+    cbn [cache_step c_under c_cache c_now spec_step fst snd dont_care].
+    destruct (forallb (fun cc => match c_get c pk cc with Some _ => true | None => false end) ccs) eqn:Eall.
+    + cbn [fst snd]. split; [exact HCI|]. split; [reflexivity|].
+      destruct (existsb _ ccs) eqn:Ed; [left; reflexivity|right]. f_equal. unfold get_batch.
+      apply map_ext_in. intros cc Hin.
+      rewrite forallb_forall in Eall. specialize (Eall cc Hin).
+      destruct (c_get c pk cc) as [e|] eqn:Eg; [|discriminate].
+      assert (Hd : (match raw_lookup st pk cc with Some r => negb (rexp r =? 0) | None => false end) = false).
+      { destruct (match raw_lookup st pk cc with Some r => negb (rexp r =? 0) | None => false end) eqn:Ex; auto.
+        exfalso. assert (T : existsb (fun cc => match raw_lookup st pk cc with Some r => negb (rexp r =? 0) | None => false end) ccs = true).
+        { apply existsb_exists. exists cc. split; auto. }
+        rewrite T in Ed. discriminate. }
+      rewrite Forall_forall in HKc.
+      rewrite <- (get_cached_agrees st now c pk cc HCI (HKc cc Hin) e Eg Hd). destruct e as [[? ?]|]; reflexivity.
+    + cbn [fst snd]. split; [|split; [reflexivity|right; reflexivity]]. apply CI_batch_fill; assumption.
   - (* Read *) cbn. split; [exact HCI|split; [reflexivity|right; reflexivity]].
   - (* Ins *) inversion HK as [|? ? HK1 _]; subst.
     cbn [cache_step c_under c_cache c_now spec_step fst snd dont_care]. unfold insert_if_not_exists.
